@@ -7,11 +7,15 @@
 package session
 
 import (
+	"context"
 	"fmt"
 	"sort"
 	"sync"
 	"testing"
 	"time"
+
+	cfgpacket "go.minekube.com/gate/pkg/edition/java/proto/packet/config"
+	gproto "go.minekube.com/gate/pkg/gate/proto"
 
 	"verif/harness/mcwire"
 	"verif/harness/rig"
@@ -50,6 +54,8 @@ func tapClient(l *log, c *rig.Client, sess string) {
 	modern := c.Proto >= rig.P1_20_2
 	state := "hs"
 	cbFin, sbFin := cfgIDs(c.Proto)
+	startCfg, hasStart := rig.PlayID(gproto.ClientBound, c.Proto, &cfgpacket.StartUpdate{})
+	ackCfg, _ := rig.PlayID(gproto.ServerBound, c.Proto, &cfgpacket.FinishedUpdate{})
 	var mu sync.Mutex
 	c.Conn.Tap = func(out bool, p mcwire.Packet) {
 		mu.Lock()
@@ -87,8 +93,14 @@ func tapClient(l *log, c *rig.Client, sess string) {
 				state = "play"
 			}
 		case "play":
-			if !out && p.ID == rig.JoinGameID(c.Proto) {
+			switch {
+			case !out && p.ID == rig.JoinGameID(c.Proto):
 				emit("join")
+			case !out && modern && hasStart && p.ID == startCfg:
+				emit("startcfg")
+			case out && modern && p.ID == ackCfg:
+				emit("cfgenter")
+				state = "config"
 			}
 		}
 	}
@@ -96,7 +108,7 @@ func tapClient(l *log, c *rig.Client, sess string) {
 
 // tapBackend logs lifecycle events of a backend connection; the session is known once the
 // login start arrives, earlier events are attributed then.
-func tapBackend(l *log, bc *rig.BackendConn, connNo func(sess string) string) {
+func tapBackend(l *log, bc *rig.BackendConn, connNo func(sess string) string) (closed func()) {
 	var mu sync.Mutex
 	state := "hs"
 	sess := ""
@@ -170,7 +182,11 @@ func tapBackend(l *log, bc *rig.BackendConn, connNo func(sess string) string) {
 			}
 		}
 	}
-	_ = fmt.Sprint
+	return func() {
+		mu.Lock()
+		defer mu.Unlock()
+		emit("closed", sess)
+	}
 }
 
 func TestSessions(t *testing.T) {
@@ -183,22 +199,34 @@ func TestSessions(t *testing.T) {
 		counters[sess]++
 		return fmt.Sprintf("b%d", counters[sess])
 	}
+	var closers sync.Map // *rig.BackendConn -> func()
 	mk := func(behave func(bc *rig.BackendConn), refuse bool) *rig.Backend {
-		b, err := rig.NewBackend(behave)
+		wrapped := func(bc *rig.BackendConn) {
+			defer func() {
+				if f, ok := closers.Load(bc); ok {
+					f.(func())() // log the close first, then mark the connection done
+					closers.Delete(bc)
+				}
+			}()
+			if behave != nil {
+				behave(bc)
+				return
+			}
+			if err := bc.StandardJoin(-1); err != nil {
+				return
+			}
+			bc.Pump()
+		}
+		b, err := rig.NewBackend(wrapped)
 		if err != nil {
 			t.Fatal(err)
 		}
 		b.Refuse = refuse
-		b.OnAccept = func(bc *rig.BackendConn) { tapBackend(l, bc, connNo) }
+		b.OnAccept = func(bc *rig.BackendConn) { closers.Store(bc, tapBackend(l, bc, connNo)) }
 		return b
 	}
-	closed := func(bc *rig.BackendConn) {
-		if bc.Name != "" {
-			// the tap knows the conn id; log the close through a synthetic packet-less event
-		}
-	}
-	_ = closed
 	ok := mk(nil, false)
+	ok2 := mk(nil, false)
 	kick := mk(func(bc *rig.BackendConn) {
 		if err := bc.ReadLogin(); err != nil {
 			return
@@ -209,10 +237,11 @@ func TestSessions(t *testing.T) {
 	}, false)
 	refuse := mk(nil, true)
 	defer ok.Close()
+	defer ok2.Close()
 	defer kick.Close()
 	defer refuse.Close()
 	r, err := rig.New(rig.Options{
-		Backends: map[string]*rig.Backend{"ok": ok, "kick": kick, "refuse": refuse},
+		Backends: map[string]*rig.Backend{"ok": ok, "ok2": ok2, "kick": kick, "refuse": refuse},
 		Try:      []string{"refuse", "kick", "ok"},
 	})
 	if err != nil {
@@ -222,7 +251,7 @@ func TestSessions(t *testing.T) {
 
 	n := tracefmt.EnvInt("VERIF_SESSIONS", 40)
 	var wg sync.WaitGroup
-	joined := 0
+	joined, switched := 0, 0
 	var jmu sync.Mutex
 	modernOf := map[string]bool{}
 	for i := 0; i < n; i++ {
@@ -241,12 +270,48 @@ func TestSessions(t *testing.T) {
 			defer c.Close()
 			c.Conn.Timeout = 15 * time.Second
 			tapClient(l, c, name)
-			if err := c.JoinFully("localhost", name); err == nil {
-				jmu.Lock()
-				joined++
-				jmu.Unlock()
+			if err := c.JoinFully("localhost", name); err != nil {
+				return
 			}
-			time.Sleep(10 * time.Millisecond)
+			jmu.Lock()
+			joined++
+			jmu.Unlock()
+			ac := c.Auto()
+			// some sessions switch servers through the API, some twice
+			for k := 0; k < i%3; k++ {
+				pl := r.P.PlayerByName(name)
+				if pl == nil {
+					break
+				}
+				target := []string{"ok2", "ok"}[k%2]
+				ctx, cancel := context.WithTimeout(context.Background(), 10*time.Second)
+				res, err := pl.CreateConnectionRequest(r.P.Server(target)).Connect(ctx)
+				cancel()
+				if err == nil && res != nil && res.Status().Successful() {
+					jmu.Lock()
+					switched++
+					jmu.Unlock()
+				}
+				// let the client finish following the switch before the next one
+				rig.WaitFor(3*time.Second, func() bool { st, _, _, _, closed := ac.Snapshot(); return closed || st == "play" })
+				time.Sleep(5 * time.Millisecond)
+			}
+			c.Close()
+			ac.Wait(3 * time.Second)
+			l.add(name, tracefmt.Rec{"ev": "c", "what": "closed", "name": name})
+			// the proxy must now drop this player's backend connections
+			rig.WaitFor(5*time.Second, func() bool {
+				for _, b := range []*rig.Backend{ok, ok2, kick} {
+					for _, bc := range b.Conns() {
+						if bc.Name == name && !connDone(&closers, bc) {
+							return false
+						}
+					}
+				}
+				return true
+			})
+			time.Sleep(20 * time.Millisecond)
+			l.add(name, tracefmt.Rec{"ev": "end"})
 		}()
 	}
 	wg.Wait()
@@ -287,5 +352,11 @@ func TestSessions(t *testing.T) {
 	if err := tw.Close(); err != nil {
 		t.Fatal(err)
 	}
-	tracefmt.WriteJSON("stats.json", map[string]any{"sessions": len(names), "joined": joined, "events": len(evs), "samples": samples})
+	tracefmt.WriteJSON("stats.json", map[string]any{"sessions": len(names), "joined": joined, "switched": switched, "events": len(evs), "samples": samples})
+}
+
+// connDone reports whether the backend connection's script has ended (its close was logged).
+func connDone(m *sync.Map, bc *rig.BackendConn) bool {
+	_, ok := m.Load(bc)
+	return !ok
 }
